@@ -17,10 +17,10 @@ RULE = (
     "usually one composite envelope), a storage layout (each envelope separate or combined in F(x)P / P(x)F "
     "order; 0-2 composite product spaces over generated member subsets in generated order; every block at "
     "label/vector/matrix level) holding a generated state per block (basis, product, Haar-entangled pure, "
-    "mixed, amplitude-cancelling, low-photon entangled), the contraction setting, and 1-3 single-subsystem "
+    "mixed, nearly pure, amplitude-cancelling, low-photon entangled), the contraction setting, and 1-3 single-subsystem "
     "operations (every Fock / polarization / custom-state type, angles in [-4pi,4pi], complex |alpha|<=1, "
     "|zeta|<=0.6, Haar unitaries and non-unitary matrices for the renormalising custom types) each issued "
-    "through a generated entry point (subsystem, its envelope, its composite envelope). Oracle: the joint "
+    "through a generated entry point (subsystem, its envelope, its composite envelope); in half of the cases the operations come after / between other generated calls (measurements, channels, structural calls, composite operations, resizes, or a prepare-absorb-release-reuse life cycle of one envelope). Oracle: the joint "
     "density matrix reconstructed from the object graph after the call must equal (OxI) rho (OxI)^+ of the "
     "one reconstructed before it (re-normalised for the renormalising types), trace distance <= 1e-8 "
     "(2.5e-3 for displacement/squeezing); rejection is accepted only when the ideal result is the zero "
@@ -37,7 +37,10 @@ ASSUMPTIONS = [
 
 
 def strategy(tier):
-    return S.program_case(["op"], max_steps=3)
+    # the operation under test is often preceded by other public calls (the property quantifies over histories)
+    hist = ["op", "op", "op", "op", "measure", "kraus", "struct", "comp", "resize"]
+    return st.one_of(S.program_case(["op"], max_steps=3), S.program_case(["op"], max_steps=3), S.program_case(hist, max_steps=5, min_steps=2),
+                     S.lifecycle_case(tail_kinds=("op", "op", "bigop"), max_tail=3))
 
 
 def worker_init():
